@@ -86,6 +86,7 @@ type recorder struct {
 	shutdown   bool
 	stopLogged bool
 	dialUDP    bool
+	suppress   bool          // loop-thread system calls made by the harness's own extra actions are not part of the trace
 	acceptGate chan struct{} // when set, the loop thread waits here before accept(2)
 	client     bool
 }
@@ -242,7 +243,7 @@ func (r *recorder) Before(c *vunix.Call) {
 		r.checkOwned(c, c.Fd, g)
 		r.checkOwned(c, c.Arg2, g)
 	}
-	if !r.onLoop(g) {
+	if !r.onLoop(g) || r.suppress {
 		return
 	}
 	// ---- loop thread: observation + optional injection
@@ -416,7 +417,7 @@ func (r *recorder) After(c *vunix.Call) {
 		r.add("op", tr.L("accepted", tr.I(c.Ret)))
 		return
 	}
-	if !r.onLoop(g) {
+	if !r.onLoop(g) || r.suppress {
 		return
 	}
 	ret := func(name string, n int, err error, extra ...string) {
